@@ -2006,6 +2006,26 @@ class UTPM(Ring, RawAlgorithmsMixIn):
         else:
             xbar, ybar = out
 
+        # constant (non-UTPM) operands: lift them to polynomials of degree zero
+        # and use a scratch adjoint (same treatment as in pb_dot)
+        D,P = z.data.shape[:2]
+
+        if not isinstance(x,cls):
+            tmp = cls(numpy.zeros((D,P) + numpy.shape(x),dtype=z.data.dtype))
+            tmp[...] = x
+            x = tmp
+
+        if not isinstance(xbar,cls):
+            xbar = x.zeros_like()
+
+        if not isinstance(y,cls):
+            tmp = cls(numpy.zeros((D,P) + numpy.shape(y),dtype=z.data.dtype))
+            tmp[...] = y
+            y = tmp
+
+        if not isinstance(ybar,cls):
+            ybar = y.zeros_like()
+
         cls._outer_pullback(zbar.data, x.data, y.data, z.data, out = (xbar.data, ybar.data))
         return (xbar,ybar)
 
